@@ -425,6 +425,9 @@ def _code_to_slice_BoolOp_values(
                              f'as slice to {op_cls.__name__} {self.a.__class__.__name__} '
                              "without 'one=True' or 'coerce=True'")
 
+    if ast__cls is Starred:
+        raise SyntaxError("can't use starred expression here")
+
     if (is_pard_tup := fst_.is_parenthesized_tuple()) is not None:
         if is_pard_tup is False:  # don't put unparenthesized tuple source as one into sequence, it would merge into the sequence
             fst_._delimit_node()
@@ -555,6 +558,9 @@ def _code_to_slice_Compare__all(
     if not is_slice_type and not (one or coerce):
         raise ValueError(f'cannot put {ast__cls.__name__} as slice to {self.a.__class__.__name__} '
                          "without 'one=True' or 'coerce=True'")
+
+    if ast__cls is Starred:
+        raise SyntaxError("can't use starred expression here")
 
     if (is_pard_tup := fst_.is_parenthesized_tuple()) is not None:
         if is_pard_tup is False:  # don't put unparenthesized tuple source as one into sequence, it would merge into the sequence
